@@ -63,6 +63,13 @@ pub struct Scn {
     /// stepped machine what Rust's f32 parser makes of it (`nan`, `inf`, `1e40`, `-0`, ...)
     #[serde(default)]
     pub volt_text: Vec<(u8, String)>,
+    /// a cycle budget beyond u32 (usize::MAX, 2^32, 2^63, ...); only given to runs that halt
+    #[serde(default)]
+    pub huge_budget: Option<u64>,
+}
+
+fn budget(scn: &Scn) -> u64 {
+    scn.huge_budget.unwrap_or(scn.cycles as u64)
 }
 
 fn v(oracle: &str, d: String) -> Violation {
@@ -140,7 +147,7 @@ pub fn r_run(scn: &Scn) -> Option<(Machine, usize)> {
     m.set_universal_input_output2(c.universal_input_output2);
     m.set_input_fc(c.input_fc);
     let mut i = 0usize;
-    while i < scn.cycles as usize {
+    while (i as u64) < budget(scn) {
         if scn.interrupts.iter().any(|c| *c as usize == i) {
             m.trigger_key_interrupt();
         }
@@ -159,7 +166,7 @@ pub fn r_run(scn: &Scn) -> Option<(Machine, usize)> {
 fn budget_class(scn: &Scn, issued: usize) -> u64 {
     if scn.cycles == 0 {
         0
-    } else if issued < scn.cycles as usize {
+    } else if (issued as u64) < budget(scn) {
         1 // halted before the budget
     } else if scn.cycles == 1 {
         2
@@ -171,7 +178,7 @@ fn budget_class(scn: &Scn, issued: usize) -> u64 {
 fn in_process(scn: &Scn, ctx: &mut Ctx) -> Result<(), Violation> {
     let rc = RunnerConfigBuilder::default()
         .with_program(&scn.program)
-        .with_max_cycles(scn.cycles as usize)
+        .with_max_cycles(budget(scn) as usize)
         .with_machine_config(mconfig(scn))
         .with_interrupts(scn.interrupts.iter().map(|c| *c as usize).collect::<Vec<usize>>())
         .with_resets(scn.resets.iter().map(|c| *c as usize).collect::<Vec<usize>>())
@@ -216,7 +223,7 @@ fn in_process(scn: &Scn, ctx: &mut Ctx) -> Result<(), Violation> {
     if collide {
         ctx.cov.probe("interrupt-and-reset-same-cycle");
     }
-    if scn.interrupts.iter().chain(scn.resets.iter()).any(|c| *c >= scn.cycles as u64) {
+    if scn.interrupts.iter().chain(scn.resets.iter()).any(|c| *c >= budget(scn)) {
         ctx.cov.probe("schedule-entry-beyond-the-end");
     }
     if scn.interrupts.contains(&0) || scn.resets.contains(&0) {
@@ -224,6 +231,9 @@ fn in_process(scn: &Scn, ctx: &mut Ctx) -> Result<(), Violation> {
     }
     if scn.interrupts.iter().chain(scn.resets.iter()).any(|c| *c >> 32 != 0) {
         ctx.cov.probe("schedule-entry-beyond-2^32");
+    }
+    if scn.huge_budget.is_some() {
+        ctx.cov.probe("cycle-budget-beyond-32-bits");
     }
     if scn.volt_text.iter().any(|(_, t)| t.parse::<f32>().map(|f| !f.is_finite()).unwrap_or(false)) {
         ctx.cov.probe("non-finite-voltage-configured");
@@ -423,7 +433,7 @@ fn process(scn: &Scn, radix: &[u8], fault: &Option<FileFault>, bad: &Option<(Str
     // the child runs inside the sandbox directory: a relative path keeps argv reproducible
     let _ = &path;
     args.push("prog.asm".to_string());
-    args.push(scn.cycles.to_string());
+    args.push(budget(scn).to_string());
     if !flags_first {
         push_flags(&mut args);
     }
@@ -477,7 +487,7 @@ fn process(scn: &Scn, radix: &[u8], fault: &Option<FileFault>, bad: &Option<(Str
     };
     // printed values
     let cyc = field(&out, "Cycles:").unwrap_or("");
-    let want_cyc = format!("{}/{}", wn, scn.cycles);
+    let want_cyc = format!("{}/{}", wn, budget(scn));
     if cyc != want_cyc {
         return Err(v("cli-output", format!("argv {:?}: printed 'Cycles: {}', stepping the machine gives {}", args, cyc, want_cyc)));
     }
@@ -596,7 +606,7 @@ impl Check for C12 {
         let broken = rng.chance(1, 12);
         let program = if broken { textgen::broken_program(rng) } else { textgen::program(rng).0 };
         let cfg = gen_cfg(rng);
-        let mut scn = Scn { program, cfg, cycles: 0, interrupts: vec![], resets: vec![], expect: None, layer: Layer::InProcess, volt_text: vec![] };
+        let mut scn = Scn { program, cfg, cycles: 0, interrupts: vec![], resets: vec![], expect: None, layer: Layer::InProcess, volt_text: vec![], huge_budget: None };
         if rng.chance(1, 6) {
             for _ in 0..1 + rng.below(2) {
                 let t = *rng.pick(&["nan", "NaN", "inf", "-inf", "infinity", "1e40", "-1e40", "-0", "5.0000001", "4.9999", "1e-50", "+2.5", ".5", "5.", "2.55", "-nan"]);
@@ -623,6 +633,16 @@ impl Check for C12 {
         scn.resets = sched(rng, scn.cycles);
         if rng.chance(1, 5) && !scn.interrupts.is_empty() {
             scn.resets.push(scn.interrupts[0]); // both kinds at the same cycle
+        }
+        if rng.chance(1, 14) {
+            // budgets beyond 32 bits, for runs that halt on their own under this schedule
+            let saved = scn.cycles;
+            scn.cycles = 20_000;
+            let halts = r_run(&scn).map(|(_, n)| n < 20_000).unwrap_or(false);
+            scn.cycles = saved;
+            if halts {
+                scn.huge_budget = Some(*rng.pick(&[u64::MAX, u64::MAX, u64::MAX - 1, 1 << 32, (1 << 32) + 3, 1 << 63, (1 << 32) - 1]));
+            }
         }
         if idx < process_runs(tier) {
             if rng.chance(1, 8) {
@@ -719,7 +739,7 @@ impl Check for C12 {
         out
     }
     fn rule(&self) -> String {
-        "Generated mrasm source programs (addition, board/input mirror, interrupt/board status mirror (0xF9, 0xF3), counters, key-interrupt programs, error halts, random straight-line code, broken sources) x machine configurations x cycle budgets {0, 1, small, halt time +-2, large} x interrupt / reset schedules with duplicates, cycle 0, entries at and beyond the end, entries >= 2^32 (also congruent to cycles inside the run modulo 2^32), both kinds at the same cycle; voltages also as literal spellings (nan, inf, 1e40, -0, ...). In-process: RunnerConfig::run vs the stated loop (full Machine equality, cycle count) and verify() for all 8 expectation subsets x matching / one mismatching value. Process: the real binary with every byte flag in decimal/0x/0b (also zero-padded and lower-case hex spellings), `--flag value` or `--flag=value`, flags before or after the positionals, repeated --interrupt/--reset, verify sub-command, malformed values, and file faults (missing, directory, non-UTF-8, syntax error, undefined label); stdout fields and exit status compared. distinct = distinct (budget class, #interrupts, #resets, collision?, final state, layer, expectation outcome) tuples.".into()
+        "Generated mrasm source programs (addition, board/input mirror, interrupt/board status mirror (0xF9, 0xF3), counters, key-interrupt programs, error halts, random straight-line code, broken sources) x machine configurations x cycle budgets {0, 1, small, halt time +-2, large, and for halting runs usize::MAX, 2^63, 2^32 +- 1} x interrupt / reset schedules with duplicates, cycle 0, entries at and beyond the end, entries >= 2^32 (also congruent to cycles inside the run modulo 2^32), both kinds at the same cycle; voltages also as literal spellings (nan, inf, 1e40, -0, ...). In-process: RunnerConfig::run vs the stated loop (full Machine equality, cycle count) and verify() for all 8 expectation subsets x matching / one mismatching value. Process: the real binary with every byte flag in decimal/0x/0b (also zero-padded and lower-case hex spellings), `--flag value` or `--flag=value`, flags before or after the positionals, repeated --interrupt/--reset, verify sub-command, malformed values, and file faults (missing, directory, non-UTF-8, syntax error, undefined label); stdout fields and exit status compared. distinct = distinct (budget class, #interrupts, #resets, collision?, final state, layer, expectation outcome) tuples.".into()
     }
     fn assumptions(&self) -> Vec<String> {
         vec![
